@@ -28,6 +28,12 @@
   * `C06.FirstHunkNoLongerFits (splitLines newbytes) h1 (applyOptsOf o)` — REQUIRED, the inherently ambiguous case: a first hunk
     that still fits exactly at its stated line of the new file (` x`, `+x` on a file of `x`s) IS applied a second time, `-N` or
     not (`Ambiguous`, evaluated: exit status 0, a third `x`).  Not a defect.
+    Since fix 3f5edfc (a reversed hunk without old lines is no evidence of a reversed patch: D82) the definition has a third
+    conjunct for a first hunk WITHOUT a new side (a removal without context, `@@ -7 +6,0 @@`): such a hunk must not be found
+    anywhere in reach — `h1.new.count ≠ 0 ∨ locateHunk … h1 … = none`.  Otherwise it is applied a second time (`ContextFree`
+    below, evaluated; `C06.C06_old_statement_false`: the statements with the old definition `C06.FirstHunkNoLongerFitsOld` are
+    false of the model).  Known finding D84, inherent: nothing in such a hunk tells "already applied" from "the lines have moved".
+    For a first hunk with a new side the definition is what it was (`C06.firstHunkNoLongerFits_of_old`).
   * `o.force = false` (`-f` switches the probe off: the hunks are tried forward and rejected one by one).
   * `-N`: `o.rejectFile = []`, `o.rejectFormat ≠ .context`, `s0.rejWritten = []`, `name.rej` free, its directories there (a flat
     name: `C06_run_N`).  NOT needed: anything about `--backup-if-mismatch` (the patch was skipped: no backup is due).
@@ -315,6 +321,8 @@ theorem C06_run_t_bytes (o : Options) (s0 : DState) (name pname bytes newbytes o
 
 instance (B : List Line) (h : Hunk) (o : ApplyOpts) : Decidable (C06.FirstHunkNoLongerFits B h o) := by
   unfold C06.FirstHunkNoLongerFits; infer_instance
+instance (B : List Line) (h : Hunk) (o : ApplyOpts) : Decidable (C06.FirstHunkNoLongerFitsOld B h o) := by
+  unfold C06.FirstHunkNoLongerFitsOld; infer_instance
 
 /-! ### non-vacuity: concrete runs
 
@@ -422,6 +430,51 @@ theorem others_hold : Valid (splitLines bytes) 0 0 [hk] ∧ splitLines newbytes 
 #guard ((runPatch InstanceAgain.oN s0).2.fs.lookup (str "f.rej")).isNone
 end Ambiguous
 
+/-! ### the third conjunct of `FirstHunkNoLongerFits` is REQUIRED: a removal without context that is found again (D84)
+
+`f` = "a \n}\na \n}\n{\nfoo\nc\n" is what `@@ -7 +6,0 @@` / `-foo` made of "a \n}\na \n}\n{\nfoo\nfoo\nc\n".  Run again: line 7 is `c`, but line
+6 is the other `foo` — the hunk is found there (offset -1) and applied, with `-N`, with `-t`, with neither: exit status 0, no
+`.rej`, no "reversed" message.  Every other hypothesis of `C06_run_N` holds, and so does the OLD `FirstHunkNoLongerFits`.  Without
+the other `foo` in reach (`f` = "a \n}\na \n}\n{\nc\n") the patch is recognised as before: the hunk itself is not found at all. -/
+namespace ContextFree
+open PatchModel.C06.D84 (hk orig again once)
+def name : Bytes := [102]
+def pname : Bytes := [112, 46, 100, 105, 102, 102]
+def t : Bytes := [116]
+def bytes : Bytes := renderLines .lf orig
+def newbytes : Bytes := renderLines .lf again
+def s0 : DState :=
+  { fs := { nodes := [(name, .file newbytes 0o644), (pname, .file (diffText name name t t [hk]) 0o644)] } }
+def s1 : DState :=
+  { fs := { nodes := [(name, .file (renderLines .lf once) 0o644), (pname, .file (diffText name name t t [hk]) 0o644)] } }
+#guard newbytes == str "a \n}\na \n}\n{\nfoo\nc\n" && bytes == str "a \n}\na \n}\n{\nfoo\nfoo\nc\n"
+#guard diffText name name t t [hk] == str "--- f\tt\n+++ f\tt\n@@ -7 +6,0 @@\n-foo\n"
+
+/-- every hypothesis about the script holds, and the old `FirstHunkNoLongerFits` — but not the new one: the hunk, which has no new
+    side, is found (at line 6) -/
+theorem others_hold : Valid (splitLines bytes) 0 0 [hk] ∧ splitLines newbytes = splice (splitLines bytes) 0 [hk] ∧
+    DiffHunks [hk] ∧ C06.FirstHunkNoLongerFitsOld (splitLines newbytes) hk (applyOptsOf InstanceAgain.oN) ∧
+    hk.new.count = 0 ∧ locateHunk (splitLines newbytes) hk false 0 2 0 = some ⟨5, 0, -1⟩ ∧
+    ¬ C06.FirstHunkNoLongerFits (splitLines newbytes) hk (applyOptsOf InstanceAgain.oN) :=
+  ⟨validB_sound _ _ _ _ (by decide), by decide, ⟨by decide, by decide, by decide⟩, by decide +kernel, rfl, by decide +kernel,
+    by decide +kernel⟩
+
+#guard (runPatch InstanceAgain.oN s0).1 == 0
+#guard (runPatch InstanceAgain.oN s0).2.fs.lookup name == some (.file (str "a \n}\na \n}\n{\nc\n") 0o644)
+#guard ((runPatch InstanceAgain.oN s0).2.fs.lookup (str "f.rej")).isNone
+#guard (runPatch InstanceAgain.oN s0).2.out == [.file name false, .msg (.hunk 1 "succeeded" 6 0 (-1))]
+#guard (runPatch InstanceAgain.ot s0).1 == 0 &&
+  (runPatch InstanceAgain.ot s0).2.fs.lookup name == some (.file (str "a \n}\na \n}\n{\nc\n") 0o644) &&
+  (runPatch InstanceAgain.ot s0).2.out == [.file name false, .msg (.hunk 1 "succeeded" 6 0 (-1))]
+-- the removed text not in reach: recognised (`loc.isNone && rloc.isSome`), `-N` skips, `-t` puts a `foo` back (as line 7)
+#guard (runPatch InstanceAgain.oN s1).1 == 1 &&
+  (runPatch InstanceAgain.oN s1).2.out == [.file name false, .msg (.reversedDetected false), .msg .skippingPatch,
+    .failed 1 1 true (some (str "f.rej"))]
+#guard (runPatch InstanceAgain.ot s1).1 == 0 &&
+  (runPatch InstanceAgain.ot s1).2.out == [.file name false, .msg (.reversedDetected false), .msg .assumingR] &&
+  (runPatch InstanceAgain.ot s1).2.fs.lookup name == some (.file (str "a \n}\na \n}\n{\nc\nfoo\n") 0o644)
+end ContextFree
+
 end PatchModel.C06Run
 
 #print axioms PatchModel.C06Run.againSection_N
@@ -435,5 +488,6 @@ end PatchModel.C06Run
 #print axioms PatchModel.C06Run.InstanceAgain.applies_N
 #print axioms PatchModel.C06Run.InstanceAgain.applies_t
 #print axioms PatchModel.C06Run.Ambiguous.others_hold
+#print axioms PatchModel.C06Run.ContextFree.others_hold
 #print axioms PatchModel.RunV.C06_N_full
 #print axioms PatchModel.RunV.C06_t_full
